@@ -371,7 +371,9 @@ def r5(ctx):
                     if not (nm.endswith(f"::{m}") and "Range<" in a[1] and short in a[1]):
                         fwd_ok = False
                     arg0 = a[2][0]
-                    if not (arg0[0] == "ref" and arg0[1][0] == "ext" and arg0[1][1] == ("param", 0, "self") and arg0[1][2] and arg0[1][2][0][2] == "range"):
+                    is_ref = arg0[0] == "ref" and arg0[1][0] == "ext" and arg0[1][1] == ("param", 0, "self") and arg0[1][2] and arg0[1][2][0][2] == "range"
+                    is_refv = arg0[0] == "refv" and arg0[1] == ("field", ("obj", ("param", 0, "self")), "range")
+                    if not (is_ref or is_refv):
                         fwd_ok = False
                     if m in ("nth", "nth_back") and (len(a[2]) < 2 or a[2][1] != ("param", 1, "n")):
                         fwd_ok = False
